@@ -30,5 +30,15 @@ CHECKS["C07"] = {
     "note": "Trusted: Coq kernel; hand model Model/Kernels.v, SimdApi.v, Base/Mem.v to the extent correspondence A exercises them; harness/cfh sym mode; OCaml driver; extraction with ExtrOcamlBasic only. Index arithmetic on nat (slices <= isize::MAX bytes). That compiled code touches only what the source says is observed with guard pages (C01/C02 runs), not proved. No axioms.",
     "technique": "Coq proof by loop invariants over an executable kernel model; symbolic-execution correspondence with the real generic kernels",
 }
+CHECKS["C03"] = {
+    "text": "Coq theorems sum/dot/norm/euclid_exact: for any integer back end whose lane operations are the wrapping scalar operations lane by lane and whose horizontal sum is the lane sum modulo 2^w (record IntLanewise, established per concrete back end by Proofs/IntBackends.v from the instruction-level models of Model/Regs.v), every length and every input, the kernel returns the bit pattern congruent modulo 2^w to the exact mathematical value (sum in Z): generic reduction theorem (loop invariant: sum of all accumulator lanes = sum of the consumed prefix, modulo 2^w) + roll-up tree + scalar tail; corollary: back-end independence. Correspondences A (symbolic structure of the real kernels) and C (all executable integer reduction exports by name on guard pages, stable + nightly/AVX-512, compared with the model AND with the Coq-extracted specification).",
+    "note": "Trusted: Coq kernel; hand models Model/Kernels.v, Model/Regs.v (intrinsic semantics are ours, validated bit-for-bit by correspondence C); Model/Prim.v; harness; extraction (ExtrOcamlBasic only). Theorems mention int_math whose sqrt field is defined with Flocq, so Print Assumptions lists the 4 standard-library axioms of Flocq's reals although the proofs do not use them.",
+    "technique": "Coq proof by loop invariant modulo 2^w over an executable kernel model; differential correspondence + extracted-specification oracle",
+}
+CHECKS["C12"] = {
+    "text": "Coq theorems over the regenerated tables: every export row is expanded by a macro arm whose two routines call the same generic kernel with the same arguments and differ only in DIMS vs a.len(), hence run_export Const = run_export Any whenever DIMS = len a (int/f32/f64 models); for all 190 safe entries the const and any wrappers have identical outcomes for every build configuration, dispatch outcome and input with DIMS = len a (assert lists mutually entailed, same supplied slots, same (type, back end, operation) per slot — reflection + soundness proof). Correspondence: every executable xconst::<D> against its xany on identical data for D in {0,1,3,8,17,33,65,130} (stable + nightly), and the 380 safe routines under masks incl. mismatches.",
+    "note": "Trusted: Coq kernel + vm_compute; tools/translate.py; Model/Exports.v, Model/Safe.v; harness glue. Bit-equality of the two compiled forms is observed on the instantiated DIMS set, not proved. Flocq's 4 axioms appear through the float models mentioned in the statements.",
+    "technique": "Coq proof by reflection over translator-generated macro tables + semantic lemma; differential const-vs-any runs",
+}
 NOT_APPLICABLE = {p: "check under construction in this session (see DESIGN.md §6 order of work); not yet claimed"
-                  for p in ["C02", "C03", "C04", "C05", "C06", "C08", "C10", "C12", "C13", "C14", "C15", "C16", "C17", "C18"]}
+                  for p in ["C02", "C04", "C05", "C06", "C08", "C10", "C13", "C14", "C15", "C16", "C17", "C18"]}
